@@ -353,6 +353,11 @@ func (w *SrvWorld) checkE2E() {
 			if w.partitioned(wr.T, wr.T+2*sec) {
 				continue // datagrams sent into a partition are lost; what counts is that traffic flows again after it
 			}
+			if wr.Done && wr.Err != nil && w.partitioned(wr.T, wr.T+8*sec) {
+				// two cuts close together swallowed all seven transmissions of this call's
+				// CreatePermission: the property's premise (no transaction loses all of them) is gone
+				continue
+			}
 			if !wr.Done && w.P.Cfg.Listener == "tcp" && len(w.K.StallIntervals()) == 0 && w.K.Now()-wr.T > 30*sec && !w.wedgeReported {
 				// a WriteTo may wait for a stream's window; it may not wait for ever: 30 s after the
 				// call nothing in the plan holds anything up any more
@@ -441,7 +446,7 @@ func (w *SrvWorld) checkE2E() {
 			// a peer can reach the client only once the client has asked for a permission for it
 			permitted := false
 			for _, wr := range rc.Writes {
-				if mustUDPAddr(wr.Peer).IP.Equal(mustUDPAddr(pl.From).IP) && wr.T+5*sec <= pl.T && rc.sameEpoch(wr.T, pl.T) && !rc.closedAround(wr.T, 0) {
+				if mustUDPAddr(wr.Peer).IP.Equal(mustUDPAddr(pl.From).IP) && wr.T+5*sec <= pl.T && rc.sameEpoch(wr.T, pl.T) && !rc.closedAround(wr.T, 0) && wr.Done && wr.Err == nil {
 					permitted = true
 				}
 			}
